@@ -529,8 +529,11 @@ def call_function(I: Interp, finfo: FuncInfo, selfv, args, kwargs, fr: Frame, no
     is_self_call = selfv is not None and fr.selfv is not None and isinstance(selfv, SV) and isinstance(fr.selfv, SV) and z3.eq(selfv.t, fr.selfv.t)
     if not exact and not is_self_call and finfo.cls is not None and isinstance(selfv, SV):
         ov = overriders(finfo)
+        dcon = REG.dispatch.get(key)
+        if dcon is not None and not ov:
+            st.log.append(f"call of {finfo.qualname} from outside its class: the (assumed) call-site contract is used")
+            return apply_contract(I, dcon, finfo, selfv, args, kwargs, fr, node)
         if ov:
-            dcon = REG.dispatch.get(key)
             if dcon is not None:
                 st.log.append(f"dynamic dispatch on {finfo.qualname}: dispatch contract used (covers overrides in {ov[:6]}{'...' if len(ov) > 6 else ''})")
                 return apply_contract(I, dcon, finfo, selfv, args, kwargs, fr, node)
@@ -663,7 +666,10 @@ def apply_contract(I: Interp, con: Contract, finfo: FuncInfo, selfv, args, kwarg
                 st.fresh_base.pop()
             st.log.append(f"contract {finfo.key} (raising {names[k - 1]})")
             raise RaiseEx(names[k - 1], node)
+    ev_before = st.events_len
     havoc(I, con.modifies, sf)
+    if con.exact_events:
+        st.events_len = ev_before
     if con.allocates:
         a2 = st.fresh("alloc", smt.I)  # the callee may allocate
         st.assume(a2 >= st.alloc)
@@ -825,8 +831,29 @@ def preserve_formulas(I: Interp, entries, sf: Frame, old: dict, rewrite=False):
     (contents of one list / dict, the reference being evaluated in the old state)."""
     st = I.st
     out = []
+    import re as _re
     for m in entries:
         m = m.strip()
+        tm = _re.match(r"^((?:List|Dict|Set)\[.*\])(\[\*\]|\{\*\})$", m)
+        if tm:
+            # every container of that declared element type keeps its contents (type-based: uses the ghost container tag)
+            ty = T.parse_ann(parse_expr(tm.group(1)), sf.module, sf.cls)
+            from .interp import State as _State
+            tid = _State._tags.setdefault(repr(ty), len(_State._tags) + 1)
+            if "ctag" not in st.heap:
+                st.heap["ctag"] = z3.Const("H0_ctag", smt.ArrII)
+                st.entry_heap.setdefault("ctag", st.heap["ctag"])
+            rr = z3.Int("r!ptag")
+            keys = ("lel", "llen") if ty.k == "list" else ("dhas", "dget", "dsz", "dkeys")
+            for k in keys:
+                cur, was = st.arr(k), old.get(k, st.entry_heap.get(k))
+                if was is None or z3.eq(cur, was):
+                    continue
+                if rewrite:
+                    st.heap[k] = z3.Lambda([rr], z3.If(z3.Select(st.heap["ctag"], rr) == tid, z3.Select(was, rr), z3.Select(cur, rr)))
+                else:
+                    out.append(z3.ForAll([rr], z3.Implies(z3.Select(st.heap["ctag"], rr) == tid, z3.Select(cur, rr) == z3.Select(was, rr))))
+            continue
         if m.endswith("[*]") or m.endswith("{*}"):
             saved = st.heap
             st.heap = dict(old)
